@@ -3,9 +3,11 @@
 Theorems: Props/C17.lean — on the Lean models of the parsers (C03/C04/C05/C06) the number of loop iterations and the
 size of what is built are bounded by the input length (+1), for every input: a count field can never drive more work
 than there are bytes. Props/C17X.lean — the text parsers: the descriptor / miniscript / taptree recursion ends by itself,
-steps <= 8|text|+22, depth <= |text|+1 (cost companions of Model/Cost.lean; tied below to the real code: a counting
-BytesIO and wrapped read_from's must report exactly the companion's numbers, and the bounds are checked on the real
-counts); base58 quadratic / bech32, mnemonics, shares, Liquid, keys: size and loop bounds. Tie / runtime part: every public parse entry point of embit is run in a sacrificial worker
+steps <= 8|text|+22, depth <= |text|+1 (cost companions of Model/Cost.lean; tied below to the real code: the counts of
+a counting BytesIO and wrapped read_from's must stay inside the proved bounds and the verdict must be the model's; exact
+equality with the companion's numbers is only tallied). Props/C17Y.lean — the byte parsers with a step counter attached
+(erasure to the model parsers, steps <= 5|b|+12 / 7|b|+12), tied by ops c17.txsteps / c17.psbtsteps. Props/C17Z.lean —
+three-valued text parsers: never out of fuel; base58 quadratic / bech32, mnemonics, shares, Liquid, keys: size and loop bounds. Tie / runtime part: every public parse entry point of embit is run in a sacrificial worker
 (address-space limit, per-call timer, tracemalloc peak) on structure-aware mutants (count and length fields set to
 0xfc, 0xfd.., 2^16, 2^32-1, 2^64-1; truncation; deep nesting; repeated separators) and random data up to 64 KiB;
 outcome must be value/exception within a time and memory budget linear in the input size. Partial: CPython's actual
@@ -21,7 +23,7 @@ import gen
 import gen_psbt
 
 PROP = "C17"
-MODS = ["EmbitModel.Props.C17", "EmbitModel.Props.C17X"]
+MODS = ["EmbitModel.Props.C17", "EmbitModel.Props.C17X", "EmbitModel.Props.C17Y", "EmbitModel.Props.C17Z"]
 
 T_BASE, T_PER_BYTE = 0.30, 90e-6          # seconds (tracemalloc slows the interpreter ~3x)
 M_BASE, M_PER_BYTE = 1_500_000, 1500      # bytes of traced peak
@@ -539,11 +541,28 @@ def text_cost(c, n):
                     c.fail("descriptor parser: %d stream calls + %d read_from calls on %d characters (bound 8n+22)" % (r[0], r[1], L), rec)
                 if r[2] > L + 1:
                     c.fail("descriptor parser: recursion depth %d on %d characters" % (r[2], L), rec)
-                # exact agreement with the cost companions; CPython's BytesIO clamps a relative seek before the start
-                # of the stream to 0 where the model (C12) lets it raise: the texts "tr(" and "sh(" (rejected by both)
+                # What is REQUIRED of embit is the bound above (exceeding it is the violation) and the same verdict as
+                # the model. Whether embit's counts EQUAL the numbers of the cost companions is only an observation
+                # (tallied, never a failure): a refactoring of the parser that keeps it inside the bound must not turn
+                # this check red (audit2 A-3 / I-17X.2). CPython's BytesIO clamps a relative seek before the start of
+                # the stream to 0 where the model (C12) lets it raise: the texts "tr(" and "sh(" (rejected by both).
                 if text in ("tr(", "sh("):
                     continue
-                c.expect("c17.desc %s" % hx(text.encode()), "ok %d %d %d %d" % (r[0], r[1], r[2], int(r[3])), rec, proven=False)
+
+                def canon(o, r=r, L=L):
+                    t = o.split(" ")
+                    if len(t) != 5 or t[0] != "ok":
+                        return o
+                    try:
+                        ms, mr, md = int(t[1]), int(t[2]), int(t[3])
+                    except ValueError:
+                        return o
+                    # the companions themselves must respect the theorems they are the subject of
+                    if ms + mr > 8 * L + 22 or md > L + 1:
+                        return "model-exceeds-proved-bound " + o
+                    c.tally("cost.desc:counts-%s-model" % ("equal" if (ms, mr, md) == r[:3] else "differ-from"))
+                    return "ok * * * " + t[4]
+                c.expect("c17.desc %s" % hx(text.encode()), "ok * * * %d" % int(r[3]), rec, proven=False, canon=canon)
     finally:
         signal.signal(signal.SIGALRM, old)
     # base58: result size (the step count is not observable); Model.Base58.decode is C11's, proved equal to the spec
@@ -564,6 +583,78 @@ def text_cost(c, n):
                  canon=lambda o: " ".join(["ok", "*"] + o.split(" ")[2:]) if o.startswith("ok ") else o)
 
 
+def bin_cost(c, n):
+    """Props/C17Y: the instrumented byte parsers (value part proved equal to Model.Tx.parse / Psbt.parse). On the real
+    code a counting BytesIO counts the stream calls of Transaction.read_from / PSBT.read_from. REQUIRED (violation
+    otherwise): embit's count stays inside the PROVED bound (5|b|+13 / 7|b|+12). Correspondence: same verdict as the
+    instrumented model. Observation only (tallied): embit's count <= the model's step count for the same bytes."""
+    import io
+    from embit.transaction import Transaction
+    from embit.psbt import PSBT
+
+    class CS(io.BytesIO):
+        n = 0
+
+        def read(self, *a):
+            self.n += 1
+            return super().read(*a)
+
+        def seek(self, *a):
+            self.n += 1
+            return super().seek(*a)
+
+    def run_one(kind, b, reader, line, bound):
+        s = CS(b)
+        ok = True
+        try:
+            reader(s)
+            if len(s.read()) > 0:
+                ok = False
+        except RecursionError:
+            c.tally("cost.%s:recursion-limit" % kind)
+            return
+        except Exception:
+            ok = False
+        L = len(b)
+        rec = {"op": line.split(" ")[0], "data": b.hex(), "size": L, "stream_calls": s.n}
+        c.count((kind, b), nontrivial=True)
+        c.tally("cost.%s:%s" % (kind, "accepted" if ok else "rejected"))
+        if s.n > bound(L):
+            c.fail("%s: %d stream calls on %d bytes (proved bound of the model: %d)" % (kind, s.n, L, bound(L)), rec)
+
+        def canon(o, calls=s.n, L=L):
+            t = o.split(" ")
+            if len(t) != 3 or t[0] != "ok":
+                return o
+            try:
+                ms = int(t[1])
+            except ValueError:
+                return o
+            if ms > bound(L):
+                return "model-exceeds-proved-bound " + o
+            c.tally("cost.%s:embit-calls-%s-model-steps" % (kind, "le" if calls <= ms else "gt"))
+            return "ok * " + t[2]
+        c.expect(line, "ok * %d" % int(ok), rec, proven=False, canon=canon)
+
+    k = max(6, n // 40)
+    for i in range(k):
+        tx = gen.gen_tx(c.rng, big=(i % 9 == 0))
+        cases = [("valid", gen.wire_of(tx))] + list(gen.mutations(c.rng, tx, budget=12))
+        for kind, b in cases:
+            if len(b) > 20000:
+                continue
+            run_one("tx", b, Transaction.read_from, "c17.txsteps %s" % hx(b), lambda L: 5 * L + 13)
+    for i in range(max(4, k // 2)):
+        g = gen_psbt.gen_psbt(c.rng)
+        cases = [("valid", g["bytes"])] + [(kd, bb) for (kd, bb, _) in list(gen_psbt.corruptions(c.rng, g))[:10]]
+        for kind, b in cases:
+            if len(b) > 20000:
+                continue
+            for comp in (0, 1, 2):
+                run_one("psbt", b, lambda s, comp=comp: PSBT.read_from(s, compress=comp),
+                        "c17.psbtsteps %d %s" % (comp, hx(b)), lambda L: 7 * L + 12)
+
+
 def run(tier, seed):
     c = Check(PROP, MODS, tier, seed)
     c.rule = ("every public parse entry point (36: transactions, scripts, witnesses, PSBT/PSET in all modes, streaming views walked "
@@ -577,6 +668,7 @@ def run(tier, seed):
     corpus(c)
     explore(c, 8 if tier == "quick" else 120)
     text_cost(c, 400 if tier == "quick" else 4000)
+    bin_cost(c, 400 if tier == "quick" else 4000)
     return c.finish(search=lambda cc: explore(cc, 40))
 
 
